@@ -11,9 +11,21 @@ package symgo
 //     $VERIF_REPO/ipld/ipldbindcode/ledger.ipldsch read at check time (natively the harness
 //     function of the same name returns the embedded bytes).
 //  3. strings.Split / strings.Fields on concrete strings (used by the harness' schema parser).
+//  4. C11.bytes.*: with fxamacker/cbor as a source root the real byte-level decoder runs
+//     (Decoder.Decode, readNext, wellformed, parse, parseArray, getHead, ...). Only the reflective
+//     top of (*decoder).value(v) is modelled: for a target *S with S a slice-of-interface type it
+//     calls the real, reflection-free (*decoder).parse for the whole data item (parseArray calls
+//     parse for every element, like the reflective parseArrayToSlice/parseToValue pair does for
+//     elements of interface type) and stores the resulting []interface{}; a data item that is
+//     not an array is a type error.
+//  5. a minimal reflect.Type: reflect.TypeOf(x) yields one canonical engine object per dynamic type
+//     with Kind(), Elem(), String() and identity comparison (fxamacker's parse compares the
+//     configured byte-string type with reflect.TypeOf([]byte(nil)) and asks for its Kind).
+//     Installed only if no other model of reflect.TypeOf exists.
 
 import (
 	"go/token"
+	"go/types"
 	"os"
 	"path/filepath"
 	"strings"
@@ -21,8 +33,13 @@ import (
 
 func c11Redirect(ext, harness string) {
 	prev := externals[ext]
-	var self externalFn
-	self = func(fr *frame, args []value) value {
+	self := func(fr *frame, args []value) value {
+		fn := fr.fn
+		if fn.Blocks != nil {
+			// fxamacker/cbor is loaded from source (C11.bytes.*): no cut, the real decoder runs
+			skipExternalOnce = fn
+			return callSSA(fr.i, fr.caller, token.NoPos, fn, args, nil)
+		}
 		if h := harnessFunc(fr.i, harness); h != nil {
 			stub(ext + " (cut: model function " + harness + " of the harness)")
 			return call(fr.i, fr, token.NoPos, h, args)
@@ -30,25 +47,151 @@ func c11Redirect(ext, harness string) {
 		if prev != nil {
 			return prev(fr, args)
 		}
-		fn := fr.fn
-		if fn.Blocks == nil {
-			if fr.i.initializing {
-				return opaqueResult(fn)
-			}
-			panic(pathAbort{"unsupported", "no model for external function " + fn.String()})
+		if fr.i.initializing {
+			return opaqueResult(fn)
 		}
-		delete(externals, ext)
-		defer func() { externals[ext] = self }()
-		return callSSA(fr.i, fr.caller, token.NoPos, fn, args, nil)
+		panic(pathAbort{"unsupported", "no model for external function " + fn.String()})
 	}
 	externals[ext] = self
 }
 
 var c11SchemaCache = map[string]string{}
 
+var (
+	c11RTypeT     *types.Named
+	c11RTypeCells = map[string]*value{}
+	c11RTypeOf    = map[*value]types.Type{}
+)
+
+func c11InstallReflect(i *interpreter) {
+	if c11RTypeT != nil {
+		return
+	}
+	obj := types.NewTypeName(token.NoPos, rtPkg, "rtype", nil)
+	st := types.NewStruct([]*types.Var{types.NewField(token.NoPos, rtPkg, "name", types.Typ[types.String], false)}, nil)
+	c11RTypeT = types.NewNamed(obj, st, nil)
+	var kindT, typeT types.Type = types.Typ[types.Uint], types.NewInterfaceType(nil, nil)
+	if rp := i.prog.ImportedPackage("reflect"); rp != nil {
+		if o := rp.Pkg.Scope().Lookup("Kind"); o != nil {
+			kindT = o.Type()
+		}
+		if o := rp.Pkg.Scope().Lookup("Type"); o != nil {
+			typeT = o.Type()
+		}
+	}
+	add := func(name string, res types.Type, impl externalFn) {
+		recv := types.NewVar(token.NoPos, rtPkg, "t", types.NewPointer(c11RTypeT))
+		sig := types.NewSignatureType(recv, nil, nil, nil, types.NewTuple(types.NewVar(token.NoPos, rtPkg, "", res)), false)
+		c11RTypeT.AddMethod(types.NewFunc(token.NoPos, rtPkg, name, sig))
+		engineFns["rtype."+name] = i.prog.NewFunction(name, sig, "engine")
+		externals["(*symgo/rt.rtype)."+name] = impl
+	}
+	typeOfCell := func(v value) types.Type {
+		p, _ := v.(*value)
+		t := c11RTypeOf[p]
+		if t == nil {
+			panic(pathAbort{"unsupported", "reflect.Type model: method call on an unknown type object"})
+		}
+		return t
+	}
+	add("Kind", kindT, func(fr *frame, args []value) value { return c11ReflectKind(typeOfCell(args[0])) })
+	add("String", types.Typ[types.String], func(fr *frame, args []value) value { return typeOfCell(args[0]).String() })
+	add("Elem", typeT, func(fr *frame, args []value) value {
+		switch u := typeOfCell(args[0]).Underlying().(type) {
+		case *types.Pointer:
+			return c11RType(u.Elem())
+		case *types.Slice:
+			return c11RType(u.Elem())
+		case *types.Array:
+			return c11RType(u.Elem())
+		case *types.Map:
+			return c11RType(u.Elem())
+		case *types.Chan:
+			return c11RType(u.Elem())
+		}
+		panic(targetPanicMsg("reflect: Elem of invalid type"))
+	})
+}
+
+// c11RType returns the canonical reflect.Type object of t.
+func c11RType(t types.Type) value {
+	key := types.TypeString(t, nil)
+	cell := c11RTypeCells[key]
+	if cell == nil {
+		c := value(structure{key})
+		cell = &c
+		c11RTypeCells[key] = cell
+		c11RTypeOf[cell] = t
+	}
+	return iface{t: types.NewPointer(c11RTypeT), v: cell}
+}
+
+func c11ReflectKind(t types.Type) value {
+	k := uint(0)
+	switch u := t.Underlying().(type) {
+	case *types.Basic:
+		switch u.Kind() {
+		case types.Bool:
+			k = 1
+		case types.Int:
+			k = 2
+		case types.Int8:
+			k = 3
+		case types.Int16:
+			k = 4
+		case types.Int32:
+			k = 5
+		case types.Int64:
+			k = 6
+		case types.Uint:
+			k = 7
+		case types.Uint8:
+			k = 8
+		case types.Uint16:
+			k = 9
+		case types.Uint32:
+			k = 10
+		case types.Uint64:
+			k = 11
+		case types.Uintptr:
+			k = 12
+		case types.Float32:
+			k = 13
+		case types.Float64:
+			k = 14
+		case types.Complex64:
+			k = 15
+		case types.Complex128:
+			k = 16
+		case types.String:
+			k = 24
+		case types.UnsafePointer:
+			k = 26
+		}
+	case *types.Array:
+		k = 17
+	case *types.Chan:
+		k = 18
+	case *types.Signature:
+		k = 19
+	case *types.Interface:
+		k = 20
+	case *types.Map:
+		k = 21
+	case *types.Pointer:
+		k = 22
+	case *types.Slice:
+		k = 23
+	case *types.Struct:
+		k = 25
+	}
+	return k
+}
+
 func init() {
 	c11Redirect("github.com/fxamacker/cbor/v2.NewDecoder", "c11Model_cborNewDecoder")
 	c11Redirect("(*github.com/fxamacker/cbor/v2.Decoder).Decode", "c11Model_cborDecode")
+	c11Redirect("github.com/fxamacker/cbor/v2.Unmarshal", "c11Model_cborUnmarshal")
 
 	verifIntrinsics["verifC11SchemaText"] = func(fr *frame, args []value) value {
 		repo := os.Getenv("VERIF_REPO")
@@ -66,6 +209,51 @@ func init() {
 		stub("verifC11SchemaText (the go:embed of ledger.ipldsch, read from the checked tree)")
 		c11SchemaCache[p] = string(b)
 		return string(b)
+	}
+
+	if externals["reflect.TypeOf"] == nil {
+		externals["reflect.TypeOf"] = func(fr *frame, args []value) value {
+			c11InstallReflect(fr.i)
+			x, _ := args[0].(iface)
+			if x.t == nil {
+				return iface{}
+			}
+			stub("reflect.TypeOf (model: canonical type object with Kind/Elem/String and identity)")
+			return c11RType(x.t)
+		}
+	}
+
+	const cborPkg = "github.com/fxamacker/cbor/v2"
+	externals["(*"+cborPkg+".decoder).value"] = func(fr *frame, args []value) value {
+		pkg := fr.i.prog.ImportedPackage(cborPkg)
+		if pkg == nil || pkg.Type("decoder") == nil {
+			panic(pathAbort{"unsupported", "cbor decoder.value: fxamacker/cbor is not a source root"})
+		}
+		parse := fr.i.prog.LookupMethod(types.NewPointer(pkg.Type("decoder").Type()), pkg.Pkg, "parse")
+		target, ok := args[1].(iface)
+		if !ok || parse == nil || parse.Blocks == nil {
+			panic(pathAbort{"unsupported", "cbor decoder.value: no body for (*decoder).parse"})
+		}
+		pt, isPtr := target.t.Underlying().(*types.Pointer)
+		if !isPtr {
+			panic(pathAbort{"unsupported", "cbor decoder.value: target is not a pointer"})
+		}
+		st, isSlice := pt.Elem().Underlying().(*types.Slice)
+		if !isSlice || !types.IsInterface(st.Elem()) {
+			panic(pathAbort{"unsupported", "cbor decoder.value: only *[]interface{}-like targets are modelled, got " + target.t.String()})
+		}
+		stub("(*cbor.decoder).value (model: reflective assignment to a slice of interface = the real (*decoder).parse of the data item)")
+		res := call(fr.i, fr, token.NoPos, parse, []value{args[0], false}).(tuple)
+		if e, _ := res[1].(iface); e.t != nil {
+			return res[1]
+		}
+		iv, _ := res[0].(iface)
+		items, isArr := iv.v.([]value)
+		if !isArr {
+			return newEngineError("cbor: cannot unmarshal a data item that is not an array into Go value of type "+pt.Elem().String(), nil)
+		}
+		*(target.v.(*value)) = items
+		return iface{}
 	}
 
 	if externals["strings.Split"] == nil {
